@@ -72,7 +72,7 @@ pub fn run(sh: &mut Shell, cl: &CommandLine, cmd: &Command,
     }
 
     let envs = cl.envs.clone();
-    let value_list = tools::split_into_fields(sh, buffer.trim(), &envs);
+    let value_list = tools::split_into_fields(sh, buffer.trim(), &envs, name_list.len());
 
     let idx_2rd_last = name_list.len() - 1;
     for i in 0..idx_2rd_last {
